@@ -731,6 +731,9 @@ class World:
             return self._models[name] if fromlist else self._models[top]
         if name == "logging":
             return _logging_facade()
+        if name == "re":
+            from . import rex as _rex
+            return _rex.facade()
         if name in INERT or name.split(".")[0] in INERT:
             return _bi.__import__(name, globals, locals, fromlist, level)
         return _Proxy(name)
